@@ -19,6 +19,7 @@ EXPLANATION = (
     "evaluations, pareto_front) ask the registry for exactly the named type and return its answer; best_individual() / "
     "best_objective_value() are the recorded best, None when empty or absent. NOT decided: equality of returned values with a model over all "
     "histories (run-time); HashMap, RefCell and better_any downcasts are trusted.")
+EXPLANATION += " " + "(R2 revised) the scopes' maps are stateful: what every registry operation LEAVES in the maps of a three-scope chain (every subset of scopes holding T), that it reaches no shadowed holder's cell, and its result class are compared with the stack of typed maps - not the primitives it happens to use."
 ASSUMPTIONS = ["std::collections::HashMap and better_any::Tid behave as documented"]
 
 REG = "mahf::state::registry::StateRegistry"
